@@ -359,6 +359,39 @@ func run(c *mcx.Ctx) {
 		}
 		runCfg(ci, u, lists, kinds)
 	}
+	// sibling universe: "dx" shares the characters of prefix "d" without lying under "d/".
+	{
+		us := universe{Paths: []string{"dx", "d/a"}, Hashes: hashes}
+		var ls [][][]string
+		if c.Thorough() {
+			ls = lists
+		} else {
+			var pre [][]string
+			for _, r := range all {
+				if pr, ok := ref.ParseRule(r); ok && pr.Type == "match" && (pr.SrcPrefix != "" || pr.DstPrefix != "") {
+					pre = append(pre, r)
+				}
+			}
+			pre = append(pre, []string{"DISALLOW", "*"}, []string{"REQUIRE", "dx"}, []string{"REQUIRE", "d/a"}, []string{"ALLOW", "*"})
+			ls = append(ls, [][]string{})
+			for _, a := range pre {
+				ls = append(ls, [][]string{a})
+			}
+			for _, a := range pre {
+				for _, b := range pre {
+					ls = append(ls, [][]string{a, b})
+				}
+			}
+		}
+		c.Note("sibling_universe", fmt.Sprintf("paths %v x %d rule lists (prefix-bearing MATCH rules + DISALLOW/REQUIRE/ALLOW in quick, full alphabet in thorough)", us.Paths, len(ls)))
+		per = 9
+		for ci := 0; ci < per*per*per; ci++ {
+			if !c.Mine(int64(ci)) {
+				continue
+			}
+			runCfg(ci, us, ls, []string{"step"})
+		}
+	}
 	if c.Thorough() {
 		// length-3 programs over the sub-alphabet on the 2-path universe, plus un-clean spellings
 		u2 := universe{Paths: []string{"a", "d/a"}, Hashes: hashesThorough}
